@@ -123,7 +123,11 @@ def environment(rnd):
     items = ['RED', 'GREEN', 'BLUE', 'BLACK', 'WHITE']
     rnd.shuffle(items)
     enums = {'Color': items[:rnd.randint(2, 5)]}
-    consts = {'LIMIT': ('integer', str(rnd.randint(0, 9))), 'GREETING': ('string', 'go'), 'ENABLED': ('boolean', 'true')}
+    consts = {'LIMIT': ('integer', str(rnd.randint(0, 9))), 'GREETING': ('string', 'go'),
+              'ENABLED': ('boolean', rnd.choice(['true', 'TRUE', 'True'])),
+              # values that a careless conversion gets wrong: false, zero, the empty string
+              'DISABLED': ('boolean', rnd.choice(['false', 'FALSE', 'False'])), 'ZERO': ('integer', '0'), 'NOTHING': ('string', ''),
+              'FLAG': ('boolean', rnd.choice(['true', 'false']))}
     funcs.update(random_funcs(rnd, rnd.randint(3, 5)))
     return {'funcs': funcs, 'ops': ops, 'bridges': bridges, 'derived': derived, 'enums': enums, 'consts': consts}
 
@@ -254,6 +258,14 @@ def scripts(rnd, env):
                 Assign(V('v'), ocall(V('a'), 'sop', k=I(rnd.randint(0, 9)))),
                 Assign(V('w'), icall('A', 'csh', 'class', x=I(rnd.randint(0, 6)))),
                 Ret(Bin('+', Bin('*', V('v'), I(1000)), Bin('+', Bin('*', V('w'), I(10)), Field(V('a'), 'N'))))])
+    # constants of every type in conditions, loop conditions, arguments and comparisons
+    out.append([Assign(V('r'), I(0)),
+                If(V('DISABLED'), [Assign(V('r'), Bin('+', V('r'), I(1)))]),
+                If(Un('not', V('FLAG')), [Assign(V('r'), Bin('+', V('r'), I(10)))]),
+                If(Bin('==', V('NOTHING'), Str('')), [Assign(V('r'), Bin('+', V('r'), I(100)))]),
+                Assign(V('c'), V('ZERO')),
+                While(Bin('and', Un('not', V('DISABLED')), Bin('<', V('c'), I(2))), [Assign(V('c'), Bin('+', V('c'), I(1)))]),
+                Ret(Bin('+', Bin('*', V('r'), I(10)), Bin('+', V('c'), fcall('mix', a=V('ZERO'), b=V('LIMIT'), s=V('NOTHING'), f=V('DISABLED')))))])
     out += random_scripts(rnd, env)
     return out
 
